@@ -43,7 +43,15 @@ let too_common mci (ci : n) (chars : n) : bool =
 let little_punct mp (p : n) (chars : n) : bool =
   let fl (x : n) = f32 (float_of_string (string_of_n x)) in
   fl p < f32 (mp *. fl chars)
-let script_low _ _ = false
+let script_low_none _ _ = false
+(* in_script / after_common_inherited < min_scripts, in single precision; 0/0 = NaN compares false *)
+let script_low (codes : int list) ms (counts : n -> n) (chars : n) : bool =
+  let fl (x : int) = f32 (float_of_int x) in
+  let cnt s = int_of_n (counts (n_of_int s)) in
+  let after = int_of_n chars - cnt !inherited - cnt !common in
+  let in_script = List.fold_left (fun a s -> a + cnt s) 0 codes in
+  f32 (fl in_script /. fl after) < ms
+let parse_codes s = if s = "-" then [] else List.map int_of_string (String.split_on_char ',' s)
 
 let err_name = function ErrFuel -> "ERR:hang" | ErrBounds -> "ERR:bounds" | ErrFull -> "ERR:full" | Ok _ -> "?"
 
@@ -63,7 +71,7 @@ let () =
         match split_ws line with
         | ["L"; lim; h] ->
           print_endline ("OK " ^ hx (bytes_of (remove_long_lines (n_of_string lim) (lines_of (zlist_of_hex (undash h))))))
-        | ["U"; h] -> print_endline ("OK " ^ hx (bytes_of (remove_invalid_utf8 (lines_of (zlist_of_hex (undash h))))))
+        | ["U"; h] -> print_endline ("OK " ^ hx (bytes_of (remove_invalid_utf8 (lines_of_utf8_tool (zlist_of_hex (undash h))))))
         | ["B"; h] ->
           (match remove_invalid_utf8_base64 (lines_of (zlist_of_hex (undash h))) with
            | Some out -> print_endline ("OK " ^ hx (bytes_of out))
@@ -83,6 +91,17 @@ let () =
           (match subtract_lines key_of (lines_of (zlist_of_hex (undash hs))) (lines_of (zlist_of_hex (undash h))) with
            | Ok out -> print_endline ("OK " ^ hx (bytes_of out))
            | e -> print_endline (err_name e))
+        | ["SR"; hs; h] ->
+          (* complete model: keys from the MurmurHash64A model (C14), nothing from the implementation *)
+          let k l = Z.to_N (subtract_insert_key l) in
+          (match subtract_lines k (lines_of (zlist_of_hex (undash hs))) (lines_of (zlist_of_hex (undash h))) with
+           | Ok out -> print_endline ("OK " ^ hx (bytes_of out))
+           | e -> print_endline (err_name e))
+        | ["CR"; hr; h] ->
+          let k l = Z.to_N (commoncrawl_dedupe_key l) in
+          (match commoncrawl_dedupe k (lines_of (zlist_of_hex (undash hr))) (lines_of (zlist_of_hex (undash h))) with
+           | Ok out -> print_endline ("OK " ^ hx (bytes_of out))
+           | e -> print_endline (err_name e))
         | ["C"; hr; h] ->
           (match commoncrawl_dedupe key_of (lines_of (zlist_of_hex (undash hr))) (lines_of (zlist_of_hex (undash h))) with
            | Ok out -> print_endline ("OK " ^ hx (bytes_of out))
@@ -96,13 +115,28 @@ let () =
           print_endline "ok"
         | ["F"; mc; run; sample; mci; mp; h] ->
           let r = sc_filter script_of is_punct is_uspace (n_of_int !common) (n_of_int !inherited)
-              (too_common (f32 (float_of_string mci))) (little_punct (f32 (float_of_string mp))) script_low
+              (too_common (f32 (float_of_string mci))) (little_punct (f32 (float_of_string mp))) script_low_none
               (sc_opts mc run sample) (zlist_of_hex (undash h)) in
           print_endline (if r then "1" else "0")
+        | ["FS"; mc; run; sample; mci; mp; ms; codes; h] ->
+          let cs = parse_codes codes in
+          let o = { (sc_opts mc run sample) with sc_nscripts = nat_of_int (List.length cs) } in
+          let r = sc_filter script_of is_punct is_uspace (n_of_int !common) (n_of_int !inherited)
+              (too_common (f32 (float_of_string mci))) (little_punct (f32 (float_of_string mp))) (script_low cs (f32 (float_of_string ms)))
+              o (zlist_of_hex (undash h)) in
+          print_endline (if r then "1" else "0")
+        | ["TS"; mc; run; sample; mci; mp; ms; codes; ranges; dh; h] ->
+          let cs = parse_codes codes in
+          let o = { (sc_opts mc run sample) with sc_nscripts = nat_of_int (List.length cs) } in
+          let d = match zlist_of_hex dh with [x] -> x | _ -> z_of_int 9 in
+          let out = simple_cleaning script_of is_punct is_uspace (n_of_int !common) (n_of_int !inherited)
+              (too_common (f32 (float_of_string mci))) (little_punct (f32 (float_of_string mp))) (script_low cs (f32 (float_of_string ms)))
+              o (parse_ranges ranges) d (lines_of (zlist_of_hex (undash h))) in
+          print_endline ("OK " ^ hx (bytes_of out))
         | ["T"; mc; run; sample; mci; mp; ranges; dh; h] ->
           let d = match zlist_of_hex dh with [x] -> x | _ -> z_of_int 9 in
           let out = simple_cleaning script_of is_punct is_uspace (n_of_int !common) (n_of_int !inherited)
-              (too_common (f32 (float_of_string mci))) (little_punct (f32 (float_of_string mp))) script_low
+              (too_common (f32 (float_of_string mci))) (little_punct (f32 (float_of_string mp))) script_low_none
               (sc_opts mc run sample) (parse_ranges ranges) d (lines_of (zlist_of_hex (undash h))) in
           print_endline ("OK " ^ hx (bytes_of out))
         | _ -> print_endline "?"
